@@ -17,7 +17,7 @@ deriving Repr, Inhabited
 
 inductive Pending where
   | none
-  | write (k : Key) (ts : Nat) (m : Option Meta) (d : Data) (ok : Bool)
+  | write (k : Key) (ts : Nat) (m : Option Meta) (d : Data) (ok : Bool) (switched : Bool)
   | delete (k : Key) (ts : Nat) (m : Option Meta) (oip : Bool) (n : Option Nat)
 deriving Repr, Inhabited
 
@@ -84,7 +84,7 @@ def onStates (st : St) (obs : List BlobSt) : St × String :=
         -- records appeared that no acknowledged operation explains
         ({ st' with hist := hist0 }, "MISMATCH unexplained-growth")
       else ({ st' with hist := hist0 }, "ok")
-    | .write k ts m d ok =>
+    | .write k ts m d ok switched =>
       let r : Rec := { key := k, ts := ts, del := false, mt := m.getD none, data := d }
       let grown := grow.filter (fun g => g.2 > 0)
       let expectStore := ok && (st.allowDup || !isLive st.hist k m)
@@ -96,7 +96,9 @@ def onStates (st : St) (obs : List BlobSt) : St × String :=
         let hist1 := histSet hist0 b.id (histGet hist0 b.id ++ [r])
         if !ok then ({ st' with hist := hist1 }, "MISMATCH failed-write-stored")
         else if !expectStore then ({ st' with hist := hist1 }, "MISMATCH duplicate-stored")
-        else if !b.active then ({ st' with hist := hist1 }, "MISMATCH write-not-in-active")
+        else if !(if switched then (st.blobs.any (fun o => o.id == b.id && o.active)) || !(st.blobs.any (·.active))
+                  else b.active) then
+          ({ st' with hist := hist1 }, "MISMATCH write-not-in-active")
         else ({ st' with hist := hist1 }, "ok")
       | _ => ({ st' with hist := hist0 }, "MISMATCH write-placement")
     | .delete k ts m oip n =>
@@ -135,7 +137,7 @@ def step (st : St) (line : String) : St × String :=
     | ["w", k, ts, m, len, seed] =>
       match hexNat k, ts.toNat?, parseMeta m, len.toNat?, seed.toNat? with
       | some k, some ts, some m, some len, some seed =>
-        ({ st with pending := .write k ts m ⟨len, if len == 0 then 0 else seed⟩ (out == "ok") }, "ok")
+        ({ st with pending := .write k ts m ⟨len, if len == 0 then 0 else seed⟩ (out == "ok" || out.startsWith "ok ") (out.endsWith " switched") }, "ok")
       | _, _, _, _, _ => (st, "skip")
     | ["d", k, ts, m, oip] =>
       match hexNat k, ts.toNat?, parseMeta m, oip.toNat? with
